@@ -278,10 +278,14 @@ impl Repr {
             return Ok(());
         } else {
             // We need to create a new buffer because the current buffer is shared with others.
+            // The new buffer gets exactly `new_capacity` (not the amortized growth used when
+            // appending, which could even exceed the old capacity).
             let str = heap.as_str();
-            let additional = new_capacity - str.len();
-            let new_heap = HeapBuffer::with_additional(str, additional)?;
-            Repr::from_heap(new_heap)
+            let mut new_repr = Repr::from_heap(HeapBuffer::with_capacity(new_capacity)?);
+            // `new_repr` is unique and `str.len() <= new_capacity`: this copies into the reserved
+            // room, it neither reallocates nor fails.
+            new_repr.push_str(str)?;
+            new_repr
         };
 
         self.replace_inner(new_repr);
